@@ -541,7 +541,12 @@ func stkNewBackend(tag string, ppOn bool) *stkBackend {
 			b.mu.Lock()
 			b.conns = append(b.conns, bc)
 			b.mu.Unlock()
-			b.newC <- bc
+			// newC is read by the ops that wait for "the connection my dial produced"; backends that live for a whole run
+			// (the `life` pairs) are never read: the notification must not block the accept loop once 256 have piled up
+			select {
+			case b.newC <- bc:
+			default:
+			}
 			go b.serve(bc)
 		}
 	}()
